@@ -12,6 +12,7 @@ CONSTANTS
   CfiLayouts = {"none"}
   Isa = "x64"
   WithScopes = FALSE
+  Fmts = {"elf", "pe"}
   WholeOnly = FALSE
   Leads = {0, 2}
   DropFnTables = {FALSE}
